@@ -18,6 +18,7 @@ RULE = (
     "one evaluation = one process_model call compared with the exact reference (state by name, every covariance "
     "entry), plus input-snapshot and repeat-call comparison. distinct = distinct (program, covariance) pairs; "
     "non-trivial = model has >=1 control or >=2 states."
+    "One ui.Model object (and one set of noise / sensor dictionaries) is also compiled four times with different calibration maps and CSE settings; every compiled object is checked against ITS calibration right after compiling and again after all were compiled."
 )
 ASSUMPTIONS = [
     "covariances symmetric positive definite with condition number <= 1e4 (property's stated domain)",
@@ -38,6 +39,10 @@ def cases(tier, seed):
     # same symbols, different noise assignment: "all positive per-control noise assignments"
     for d_ in (inter[1], inter[3]):
         d_["pnoise"] = [[k_, v_ * 4.0 + 0.125 * i_] for i_, (k_, v_) in enumerate(reversed(d_["pnoise"]))]
+    # one ui.Model / noise dict compiled several times with different calibration maps and CSE settings: each compiled filter
+    # predicts with ITS calibration
+    for d_ in (space.bind_def(2, 1, 2, order=1, sensors_shape=(2, 1)), space.bind_def(3, 2, 1, order=2, sensors_shape=(1, 2))):
+        yield {"kind": "shared", "def": d_, "seed": seed}
     yield {"kind": "interleave", "defs": inter, "seed": seed}
     yield {"kind": "interleave", "defs": list(reversed(inter)), "seed": seed}
     for d_ in defs[:27:4]:  # and a second noise assignment for a sample of the BIND shapes in the ordinary cases
@@ -64,6 +69,11 @@ def cases(tier, seed):
 
 
 def eval_case(case):
+    if case.get("kind") == "shared":
+        from fv import ekfcheck
+        n, fails = ekfcheck.shared_inputs(case["def"], case["seed"], aspects=("predict",))
+        return {"n": n, "fails": fails, "sig": "shared:" + case["def"]["name"], "outcomes": ["evaluated", "shared-inputs"],
+                "sample": {"kind": "shared-inputs", "definition": case["def"]["name"], "compiles_of_one_ui_model": 4, "calls": n}}
     if case.get("kind") == "interleave":
         from fv import ekfcheck
         n, fails = ekfcheck.interleave(case["defs"], case["seed"], "predict")
